@@ -117,7 +117,7 @@ def check(case):
 
 
 def _strategy():
-    return st.tuples(gp.programs(), st.lists(st.integers(0, 2 ** 31), min_size=2, max_size=2)).map(
+    return st.tuples(st.one_of(gp.programs(), gp.programs(), gp.programs(evidence_bias=True)), st.lists(st.integers(0, 2 ** 31), min_size=2, max_size=2)).map(
         lambda t: {"prog": t[0], "seeds": t[1]})
 
 
